@@ -72,6 +72,15 @@ var Family = []*T{
 	{Name: "ListNP", Kind: "list", Elem: "Plain", ElemNullable: true},
 	{Name: "AllOpt", Kind: "struct", Repr: "map", Fields: []F{{Name: "A", Type: "Int", Optional: true}, {Name: "B", Type: "String", Optional: true}}},
 	{Name: "Swap", Kind: "struct", Repr: "map", Fields: []F{{Name: "L", Type: "Int", Rename: "R"}, {Name: "R", Type: "Int", Rename: "L"}, {Name: "Cur", Type: "String", Rename: "Prev"}, {Name: "Prev", Type: "String", Rename: "Arch"}}},
+	{Name: "LeadOpt", Kind: "struct", Repr: "map", Fields: []F{{Name: "A", Type: "Int", Optional: true}, {Name: "B", Type: "String", Optional: true}, {Name: "C", Type: "Bool", Optional: true}, {Name: "D", Type: "Int"}}},
+	{Name: "LeadOptLP", Kind: "struct", Repr: "listpairs", NoGen: true, Fields: []F{{Name: "A", Type: "Int", Optional: true}, {Name: "B", Type: "String", Optional: true}, {Name: "C", Type: "Int"}, {Name: "D", Type: "String", Optional: true}, {Name: "E", Type: "Int"}}},
+	{Name: "TupleOpt", Kind: "struct", Repr: "tuple", Fields: []F{{Name: "X", Type: "Int", Optional: true}, {Name: "Y", Type: "String", Optional: true}}},
+	{Name: "UnionSP2", Kind: "union", Repr: "stringprefix", Delim: ":", Members: []M{{Type: "UnionSP", Discr: "u"}, {Type: "Foo", Discr: "g"}}},
+	{Name: "TupleON", Kind: "struct", Repr: "tuple", Fields: []F{{Name: "X", Type: "String"}, {Name: "Y", Type: "String", Optional: true, Nullable: true}, {Name: "Z", Type: "String", Optional: true, Nullable: true}}},
+	{Name: "Any", Kind: "any", NoGen: true},
+	{Name: "ListNA", Kind: "list", Elem: "Any", ElemNullable: true, NoGen: true},
+	{Name: "MapSA", Kind: "map", Elem: "Any", NoGen: true},
+	{Name: "WithAny", Kind: "struct", Repr: "map", NoGen: true, Fields: []F{{Name: "V", Type: "Any"}, {Name: "N", Type: "Any", Nullable: true}, {Name: "O", Type: "Any", Optional: true}}},
 	{Name: "EnumX", Kind: "enum", Repr: "string", NoGen: true, Members: []M{{Type: "Low", Discr: "Med"}, {Type: "Med", Discr: "High"}, {Type: "High", Discr: "Max"}}},
 	{Name: "Outer", Kind: "struct", Repr: "map", Fields: []F{{Name: "P", Type: "Plain"}, {Name: "L", Type: "ListI"}, {Name: "M", Type: "MapSI"}, {Name: "U", Type: "UnionK"}}},
 	{Name: "Nested", Kind: "struct", Repr: "map", NoGen: true, Fields: []F{{Name: "P", Type: "Plain"}, {Name: "L", Type: "ListI"}, {Name: "M", Type: "MapSI"}, {Name: "U", Type: "UnionK"}, {Name: "E", Type: "EnumS"}, {Name: "EI", Type: "EnumI"}, {Name: "By", Type: "Bytes"}}},
@@ -105,6 +114,8 @@ func Build(gen bool) *schema.TypeSystem {
 			ts.Accumulate(schema.SpawnBool(n))
 		case "bytes":
 			ts.Accumulate(schema.SpawnBytes(n))
+		case "any":
+			ts.Accumulate(schema.SpawnAny(n))
 		case "map":
 			ts.Accumulate(schema.SpawnMap(n, "String", schema.TypeName(t.Elem), t.ElemNullable))
 		case "list":
@@ -260,6 +271,9 @@ type OptMore struct {
 	M *MapSI
 }
 
+// EnumI8: the int-represented enum EnumI held in a narrow Go integer.
+type EnumI8 int8
+
 type Swap struct {
 	L    int64
 	R    int64
@@ -316,6 +330,8 @@ func GoPtr(name string) interface{} {
 		return (*OptMore)(nil)
 	case "Swap":
 		return (*Swap)(nil)
+	case "EnumI":
+		return (*EnumI8)(nil)
 	}
 	return nil
 }
